@@ -250,6 +250,13 @@ Variable recd : schema -> goval -> option bool.
 Definition goodc (c : schema) : Prop :=
   forall p q d, jd d -> exists r, rec_sp c p q d = Ok r /\ recd c d = Some (r_valid r).
 
+Lemma all_opt_some_forallb' {A} (f : A -> option bool) (g : A -> bool) l :
+  (forall x, In x l -> f x = Some (g x)) -> all_opt (map f l) = Some (forallb g l).
+Proof.
+  induction l as [|x t IH]; intros H; [reflexivity|]. cbn [map forallb]. rewrite (H x (or_introl eq_refl)). cbn [all_opt]. rewrite IH; [reflexivity|].
+  intros y Hy. apply H. right; exact Hy.
+Qed.
+
 Lemma all_opt_cons_some b l : all_opt (Some b :: l) = match all_opt l with Some c => Some (b && c) | None => None end.
 Proof. reflexivity. Qed.
 
@@ -382,6 +389,144 @@ Proof.
       rewrite Hsizes, Hv3. cbn [all_opt andb]. f_equal; try btauto.
 Qed.
 
+Definition V (c : schema) (d : goval) : bool := match recd c d with Some b => b | None => true end.
+
+Lemma goodc_V c p q d : goodc c -> jd d -> exists r, rec_sp c p q d = Ok r /\ r_valid r = V c d /\ recd c d = Some (V c d).
+Proof. intros Hg Hd. destruct (Hg p q d Hd) as [r [H1 H2]]. exists r. unfold V. rewrite H2. auto. Qed.
+
+Lemma lookup_val_member m k : lookup_val m k = lookup_member m k.
+Proof. induction m as [|[k' v] t IH]; [reflexivity|]. cbn [lookup_val lookup_member]. rewrite IH. reflexivity. Qed.
+
+Lemma lookup_val_in (m : list (str * goval)) k v : NoDup (map fst m) -> (lookup_val m k = Some v <-> In (k, v) m).
+Proof.
+  induction m as [|[k' v'] t IH]; intros Hnd; [split; [discriminate | intros []]|]. cbn [lookup_val map fst] in *. inversion Hnd as [|x xs Hx Hxs]; subst.
+  destruct (Z.eqb_spec k k') as [e|ne].
+  - subst. split; [intros H; inversion H; subst; left; reflexivity|]. intros [H | H]; [inversion H; reflexivity|].
+    exfalso. apply Hx. apply in_map_iff. exists (k', v). split; [reflexivity | exact H].
+  - rewrite (IH Hxs). split; [intros H; right; exact H | intros [H | H]; [inversion H; congruence | exact H]].
+Qed.
+
+Lemma lookup_schema_in (l : list (str * schema)) k c : NoDup (map fst l) -> (lookup_schema l k = Some c <-> In (k, c) l).
+Proof.
+  induction l as [|[k' c'] t IH]; intros Hnd; [split; [discriminate | intros []]|]. cbn [lookup_schema map fst] in *. inversion Hnd as [|x xs Hx Hxs]; subst.
+  destruct (Z.eqb_spec k' k) as [e|ne].
+  - subst. split; [intros H; inversion H; subst; left; reflexivity|]. intros [H | H]; [inversion H; reflexivity|].
+    exfalso. apply Hx. apply in_map_iff. exists (k, c). split; [reflexivity | exact H].
+  - rewrite (IH Hxs). split; [intros H; right; exact H | intros [H | H]; [inversion H; congruence | exact H]].
+Qed.
+
+(* iterating over the declared properties and looking the member up = iterating over the members and looking the property up *)
+Lemma swap_iteration (F : schema -> goval -> bool) (props : list (str * schema)) (m : list (str * goval)) :
+  NoDup (map fst props) -> NoDup (map fst m) ->
+  forallb (fun kv => match lookup_schema props (fst kv) with Some ps => F ps (snd kv) | None => true end) m =
+  forallb (fun kp => match lookup_val m (fst kp) with Some v => F (snd kp) v | None => true end) props.
+Proof.
+  intros Hp Hm. apply eq_true_iff_eq. rewrite !forallb_forall. split.
+  - intros H [k ps] Hin. cbn [fst snd]. destruct (lookup_val m k) as [v|] eqn:E; [|reflexivity].
+    apply (lookup_val_in m k v Hm) in E. specialize (H (k, v) E). cbn [fst snd] in H.
+    rewrite (proj2 (lookup_schema_in props k ps Hp) Hin) in H. exact H.
+  - intros H [k v] Hin. cbn [fst snd]. destruct (lookup_schema props k) as [ps|] eqn:E; [|reflexivity].
+    apply (lookup_schema_in props k ps Hp) in E. specialize (H (k, ps) E). cbn [fst snd] in H.
+    rewrite (proj2 (lookup_val_in m k v Hm) Hin) in H. exact H.
+Qed.
+
+
+(* ------------------------------------------------------------------ dependencies *)
+
+Definition present (m : list (str * goval)) (k : str) : bool := match lookup_member m k with Some _ => true | None => false end.
+
+(* the verdict of one dependency on the object d with members m *)
+Definition dep_verdict (d : goval) (m : list (str * goval)) (dep : option schema * list str) : bool :=
+  match fst dep with Some c => V c d | None => forallb (present m) (snd dep) end.
+
+Definition deps_verdict (s : schema) (d : goval) : bool :=
+  match d with
+  | VObj _ m => forallb (fun kd => if present m (fst kd) then dep_verdict d m (snd kd) else true) (s_deps s)
+  | _ => true
+  end.
+
+Fixpoint find_dep (l : list (str * (option schema * list str))) (key : str) : option (option schema * list str) :=
+  match l with
+  | [] => None
+  | (k, dep) :: l' => if Z.eqb k key then Some dep else find_dep l' key
+  end.
+
+Lemma find_inline key : forall l : list (str * (option schema * list str)),
+  (fix find (l : list (str * (option schema * list str))) :=
+     match l with
+     | [] => None
+     | (k, dep) :: l' => if Z.eqb k key then Some dep else find l'
+     end) l = find_dep l key.
+Proof. induction l as [|[k dep] t IH]; [reflexivity|]. cbn [find_dep]. rewrite <- IH. reflexivity. Qed.
+
+Lemma find_dep_in l k dep : NoDup (map fst l) -> (find_dep l k = Some dep <-> In (k, dep) l).
+Proof.
+  induction l as [|[k' dep'] t IH]; intros Hnd; [split; [discriminate | intros []]|]. cbn [find_dep map fst] in *. inversion Hnd as [|x xs Hx Hxs]; subst.
+  destruct (Z.eqb_spec k' k) as [e|ne].
+  - subst. split; [intros H; inversion H; subst; left; reflexivity|]. intros [H | H]; [inversion H; reflexivity|].
+    exfalso. apply Hx. apply in_map_iff. exists (k, dep). split; [reflexivity | exact H].
+  - rewrite (IH Hxs). split; [intros H; right; exact H | intros [H | H]; [inversion H; congruence | exact H]].
+Qed.
+
+Lemma swap_deps (F : option schema * list str -> bool) (deps : list (str * (option schema * list str))) (m : list (str * goval)) :
+  NoDup (map fst deps) -> NoDup (map fst m) ->
+  forallb (fun kv => match find_dep deps (fst kv) with Some dep => F dep | None => true end) m =
+  forallb (fun kd => if present m (fst kd) then F (snd kd) else true) deps.
+Proof.
+  intros Hd Hm. apply eq_true_iff_eq. rewrite !forallb_forall. split.
+  - intros H [k dep] Hin. cbn [fst snd]. unfold present. destruct (lookup_member m k) as [v|] eqn:E; [|reflexivity].
+    rewrite <- lookup_val_member in E. apply (lookup_val_in m k v Hm) in E. specialize (H (k, v) E). cbn [fst snd] in H.
+    rewrite (proj2 (find_dep_in deps k dep Hd) Hin) in H. exact H.
+  - intros H [k v] Hin. cbn [fst snd]. destruct (find_dep deps k) as [dep|] eqn:E; [|reflexivity].
+    apply (find_dep_in deps k dep Hd) in E. specialize (H (k, dep) E). cbn [fst snd] in H. unfold present in H.
+    pose proof (proj2 (lookup_val_in m k v Hm) Hin) as Hl. rewrite lookup_val_member in Hl. rewrite Hl in H. exact H.
+Qed.
+
+(* L1: the loop over the members of the object *)
+Lemma dependencies_agree s p d all : kids goodc s -> jd d -> forall m main,
+  exists main', dependencies rec_sp s p d m all main = Ok main' /\
+                r_valid main' = r_valid main &&
+                forallb (fun kv => match find_dep (s_deps s) (fst kv) with Some dep => dep_verdict d all dep | None => true end) m.
+Proof.
+  intros [_ [_ [_ [_ [_ [_ [_ [_ [_ [_ Kd]]]]]]]]]] Hd. induction m as [|[key v] t IH]; intros main; [exists main; cbn; rewrite andb_true_r; auto|].
+  cbn [dependencies forallb fst].
+  rewrite (find_inline key (s_deps s)).
+  destruct (find_dep (s_deps s) key) as [[[ds|] props]|] eqn:E.
+  - assert (Hg : goodc ds).
+    { clear - E Kd. induction Kd as [|[k dep] l Hk Hl IHl]; [discriminate|]. cbn [find_dep] in E.
+      destruct (Z.eqb k key); [inversion E; subst; apply Hk; reflexivity | apply IHl; exact E]. }
+    unfold rec. destruct (goodc_V ds (p ++ [SDot key]) (p ++ [SDot key]) d Hg Hd) as [x [Hx [Hv _]]]. rewrite Hx. cbn [bind].
+    destruct (IH (merge main (Some x))) as [main' [H1 H2]]. exists main'. split; [exact H1|].
+    rewrite H2, r_valid_merge, Hv. unfold dep_verdict. cbn [fst]. btauto.
+  - destruct (IH (r_add main (flat_map (fun dk => match lookup_val all dk with Some _ => [] | None => [mkMsg C_DEPENDENCY p [dk]] end) props)))
+      as [main' [H1 H2]]. exists main'. split; [exact H1|]. rewrite H2, r_valid_add. unfold dep_verdict. cbn [fst snd].
+    assert (Hp : (match flat_map (fun dk => match lookup_val all dk with Some _ => [] | None => [mkMsg C_DEPENDENCY p [dk]] end) props with [] => true | _ => false end)
+                 = forallb (present all) props).
+    { clear. induction props as [|dk t IH]; [reflexivity|]. cbn [flat_map forallb]. unfold present at 1. rewrite (lookup_val_member all dk).
+      destruct (lookup_member all dk); [exact IH | reflexivity]. }
+    rewrite Hp. btauto.
+  - destruct (IH main) as [main' [H1 H2]]. exists main'. split; [exact H1 | rewrite H2; reflexivity].
+Qed.
+
+(* L0: the list of dependencies *)
+Lemma deps_L0 s id m : kids goodc s -> jd (VObj id m) ->
+  all_opt (map (fun dep : str * (option schema * list str) =>
+                  let '(k, (ds, props)) := dep in
+                  match lookup_member m k with
+                  | None => Some true
+                  | Some _ => match ds with
+                              | Some dsch => recd dsch (VObj id m)
+                              | None => Some (forallb (fun pk => match lookup_member m pk with Some _ => true | None => false end) props)
+                              end
+                  end) (s_deps s)) = Some (deps_verdict s (VObj id m)).
+Proof.
+  intros [_ [_ [_ [_ [_ [_ [_ [_ [_ [_ Kd]]]]]]]]]] Hd. unfold deps_verdict. apply all_opt_some_forallb'.
+  intros [k [ds props]] Hin. cbn [fst snd]. unfold present, dep_verdict. cbn [fst snd].
+  destruct (lookup_member m k); [|reflexivity]. destruct ds as [c|]; [|reflexivity].
+  assert (Hg : goodc c) by (apply (proj1 (Forall_forall _ _) Kd (k, (Some c, props)) Hin); reflexivity).
+  destruct (goodc_V c [] [] (VObj id m) Hg Hd) as [_ [_ [_ Hr]]]. exact Hr.
+Qed.
+
 (* ------------------------------------------------------------------ allOf / anyOf / not *)
 
 Lemma keep_relevant_valid x : r_valid x = true -> r_valid (keep_relevant x) = true.
@@ -435,13 +580,13 @@ Proof.
     + rewrite G2, Hvx. cbn [length]. rewrite Nat2Z.inj_succ. lia.
 Qed.
 
-Definition comp_clean (s : schema) : Prop := s_one_of s = [] /\ s_deps s = [].
+Definition comp_clean (s : schema) : Prop := s_one_of s = [] /\ NoDup (map fst (s_deps s)).
 
 Lemma props_agree p s d : kids goodc s -> comp_clean s -> jd d ->
-  exists r, props_validate rec_sp p s d = Ok r /\ composition_ok recd s d = Some (r_valid r).
+  exists r bc, props_validate rec_sp p s d = Ok r /\ composition_ok recd s d = Some bc /\ r_valid r = bc && deps_verdict s d.
 Proof.
-  intros [_ [_ [_ [_ [_ [_ [Kall [Kany [_ [Knot _]]]]]]]]]] [Hone Hdeps] Hd.
-  unfold props_validate, composition_ok. rewrite Hone, Hdeps. cbv zeta.
+  intros K [Hone Hdeps] Hd. pose proof K as [_ [_ [_ [_ [_ [_ [Kall [Kany [_ [Knot _]]]]]]]]]].
+  unfold props_validate, composition_ok. rewrite Hone. cbv zeta.
   (* anyOf *)
   assert (Hany : exists a bany, (match s_any_of s with
                                  | [] => Ok (new_res, None)
@@ -493,55 +638,26 @@ Proof.
     eexists. exists (negb (r_valid x)). split; [reflexivity|]. split; [reflexivity|].
     destruct (r_valid x); [rewrite r_valid_add|]; cbn [negb]; btauto. }
   destruct Hnot as [main4 [bnot [Hn [Hdn Hvn]]]]. rewrite Hn, Hdn. cbn [bind].
-  eexists. split; [reflexivity|]. cbn [all_opt]. f_equal.
-  rewrite !r_valid_merge, r_valid_inc, Hvn. cbn [andb].
-  rewrite <- Hva. symmetry.
-  transitivity ((r_valid main3 && match keep_all with Some k => r_valid k | None => true end) && bnot && match keep_any with Some k => r_valid k | None => true end);
+  (* dependencies *)
+  assert (Hdep : exists main5, (match s_deps s, d with
+                                | _ :: _, VObj _ m => dependencies rec_sp s p d m m main4
+                                | _, _ => Ok main4
+                                end) = Ok main5 /\ r_valid main5 = r_valid main4 && deps_verdict s d).
+  { destruct (s_deps s) as [|d0 dt] eqn:Ed.
+    - exists main4. split; [reflexivity|]. unfold deps_verdict. rewrite Ed. destruct d; cbn [forallb]; rewrite andb_true_r; reflexivity.
+    - destruct d as [| | | | | | | |id m]; try (exists main4; split; [reflexivity | cbn [deps_verdict]; rewrite andb_true_r; reflexivity]).
+      destruct (dependencies_agree s p (VObj id m) m K Hd m main4) as [main5 [G1 G2]]. exists main5. split; [exact G1|].
+      rewrite G2. f_equal. unfold deps_verdict. rewrite <- Ed in *. apply jd_obj in Hd. destruct Hd as [_ Hndm].
+      apply (swap_deps (dep_verdict (VObj id m) m) (s_deps s) m Hdeps Hndm). }
+  destruct Hdep as [main5 [Hm5 Hv5]]. rewrite Hm5. cbn [bind].
+  eexists. eexists. split; [reflexivity|]. split; [reflexivity|].
+  rewrite !r_valid_merge, r_valid_inc, Hv5, Hvn. cbn [andb].
+  rewrite <- Hva.
+  transitivity ((r_valid main3 && match keep_all with Some k => r_valid k | None => true end) && bnot && match keep_any with Some k => r_valid k | None => true end && deps_verdict s d);
     [btauto|]. rewrite Hvc. btauto.
 Qed.
 
 (* ------------------------------------------------------------------ objects *)
-
-Definition V (c : schema) (d : goval) : bool := match recd c d with Some b => b | None => true end.
-
-Lemma goodc_V c p q d : goodc c -> jd d -> exists r, rec_sp c p q d = Ok r /\ r_valid r = V c d /\ recd c d = Some (V c d).
-Proof. intros Hg Hd. destruct (Hg p q d Hd) as [r [H1 H2]]. exists r. unfold V. rewrite H2. auto. Qed.
-
-Lemma lookup_val_member m k : lookup_val m k = lookup_member m k.
-Proof. induction m as [|[k' v] t IH]; [reflexivity|]. cbn [lookup_val lookup_member]. rewrite IH. reflexivity. Qed.
-
-Lemma lookup_val_in (m : list (str * goval)) k v : NoDup (map fst m) -> (lookup_val m k = Some v <-> In (k, v) m).
-Proof.
-  induction m as [|[k' v'] t IH]; intros Hnd; [split; [discriminate | intros []]|]. cbn [lookup_val map fst] in *. inversion Hnd as [|x xs Hx Hxs]; subst.
-  destruct (Z.eqb_spec k k') as [e|ne].
-  - subst. split; [intros H; inversion H; subst; left; reflexivity|]. intros [H | H]; [inversion H; reflexivity|].
-    exfalso. apply Hx. apply in_map_iff. exists (k', v). split; [reflexivity | exact H].
-  - rewrite (IH Hxs). split; [intros H; right; exact H | intros [H | H]; [inversion H; congruence | exact H]].
-Qed.
-
-Lemma lookup_schema_in (l : list (str * schema)) k c : NoDup (map fst l) -> (lookup_schema l k = Some c <-> In (k, c) l).
-Proof.
-  induction l as [|[k' c'] t IH]; intros Hnd; [split; [discriminate | intros []]|]. cbn [lookup_schema map fst] in *. inversion Hnd as [|x xs Hx Hxs]; subst.
-  destruct (Z.eqb_spec k' k) as [e|ne].
-  - subst. split; [intros H; inversion H; subst; left; reflexivity|]. intros [H | H]; [inversion H; reflexivity|].
-    exfalso. apply Hx. apply in_map_iff. exists (k, c). split; [reflexivity | exact H].
-  - rewrite (IH Hxs). split; [intros H; right; exact H | intros [H | H]; [inversion H; congruence | exact H]].
-Qed.
-
-(* iterating over the declared properties and looking the member up = iterating over the members and looking the property up *)
-Lemma swap_iteration (F : schema -> goval -> bool) (props : list (str * schema)) (m : list (str * goval)) :
-  NoDup (map fst props) -> NoDup (map fst m) ->
-  forallb (fun kv => match lookup_schema props (fst kv) with Some ps => F ps (snd kv) | None => true end) m =
-  forallb (fun kp => match lookup_val m (fst kp) with Some v => F (snd kp) v | None => true end) props.
-Proof.
-  intros Hp Hm. apply eq_true_iff_eq. rewrite !forallb_forall. split.
-  - intros H [k ps] Hin. cbn [fst snd]. destruct (lookup_val m k) as [v|] eqn:E; [|reflexivity].
-    apply (lookup_val_in m k v Hm) in E. specialize (H (k, v) E). cbn [fst snd] in H.
-    rewrite (proj2 (lookup_schema_in props k ps Hp) Hin) in H. exact H.
-  - intros H [k v] Hin. cbn [fst snd]. destruct (lookup_schema props k) as [ps|] eqn:E; [|reflexivity].
-    apply (lookup_schema_in props k ps Hp) in E. specialize (H (k, ps) E). cbn [fst snd] in H.
-    rewrite (proj2 (lookup_val_in m k v Hm) Hin) in H. exact H.
-Qed.
 
 Definition object_clean (s : schema) : Prop :=
   s_pat_props s = [] /\
@@ -632,10 +748,11 @@ Proof.
   intros y Hy. apply H. right; exact Hy.
 Qed.
 
-Lemma object_agree p s id m : kids goodc s -> object_clean s -> s_deps s = [] -> jd (VObj id m) ->
-  exists r, object_validate OR opt rec_sp p s (VObj id m) = Ok r /\ object_ok OR recd s (VObj id m) = Some (r_valid r).
+Lemma object_agree p s id m : kids goodc s -> object_clean s -> jd (VObj id m) ->
+  exists r, object_validate OR opt rec_sp p s (VObj id m) = Ok r /\
+            object_ok OR recd s (VObj id m) = Some (r_valid r && deps_verdict s (VObj id m)).
 Proof.
-  intros K [Hpp [Hdef [Hnd Hfa]]] Hdeps Hjd. apply jd_obj in Hjd. destruct Hjd as [Hm Hndm].
+  intros K [Hpp [Hdef [Hnd Hfa]]] Hjd. pose proof (deps_L0 s id m K Hjd) as Hdeps. apply jd_obj in Hjd. destruct Hjd as [Hm Hndm].
   pose proof K as [_ [_ [_ [Kp [_ [Ka _]]]]]].
   unfold object_validate, object_ok. cbv zeta. set (n := Z.of_nat (length m)).
   (* the verdict of L0 on the members *)
@@ -666,11 +783,10 @@ Proof.
       + destruct (goodc_V sa [] [] v (Ka a sa eq_refl) Hjv) as [_ [_ [_ Hr]]]. rewrite Hr. cbn [app]. destruct a; change (all_opt [Some (V sa v)]) with (Some (V sa v && true)); rewrite andb_true_r; reflexivity.
       + destruct a; reflexivity.
       + reflexivity. }
-  rewrite Hmem, Hdeps. cbn [map].
-  change (all_opt []) with (Some true).
+  rewrite Hmem, Hdeps. set (dv := deps_verdict s (VObj id m)).
   set (sizes := (match s_max_props s with Some mx => n <=? mx | None => true end) && (match s_min_props s with Some mn => mn <=? n | None => true end)).
   set (required := forallb (fun k => match lookup_member m k with Some _ => true | None => false end) (s_required s)).
-  assert (HL0 : all_opt [Some sizes; Some required; Some (forallb member_b m); Some true] = Some (sizes && (required && (forallb member_b m && (true && true))))) by reflexivity.
+  assert (HL0 : all_opt [Some sizes; Some required; Some (forallb member_b m); Some dv] = Some (sizes && (required && (forallb member_b m && (dv && true))))) by reflexivity.
   rewrite HL0.
   destruct (match s_min_props s with Some mn => n <? mn | None => false end) eqn:Efew.
   { eexists. split; [reflexivity|]. cbn [r_valid s_err r_errs]. f_equal. unfold sizes. destruct (s_min_props s) as [mn|]; [|discriminate].
@@ -701,8 +817,8 @@ Proof.
   rewrite required_agree, Hv2, Hv1, Hsz. fold required.
   rewrite <- (swap_iteration V (s_props s) m Hnd Hndm).
   transitivity (required && (forallb (fun kv => has_prop s (fst kv) || match s_add_props s with Some (_, Some sa) => V sa (snd kv) | Some (false, None) => false | _ => true end) m &&
-                             forallb (fun kv => match lookup_schema (s_props s) (fst kv) with Some ps => V ps (snd kv) | None => true end) m)); [|btauto].
-  cbn [andb]. rewrite andb_true_r. f_equal. rewrite <- forallb_andb_pointwise. apply forallb_ext_in. intros [k v] _. unfold member_b, has_prop. cbn [fst snd].
+                             forallb (fun kv => match lookup_schema (s_props s) (fst kv) with Some ps => V ps (snd kv) | None => true end) m) && dv); [|btauto].
+  cbn [andb]. rewrite andb_true_r. rewrite andb_assoc. f_equal. f_equal. rewrite <- forallb_andb_pointwise. apply forallb_ext_in. intros [k v] _. unfold member_b, has_prop. cbn [fst snd].
   destruct (lookup_schema (s_props s) k); cbn [orb andb]; [reflexivity | rewrite andb_true_r; reflexivity].
 Qed.
 
@@ -725,7 +841,7 @@ Proof.
   intros [Hns [_ [Hfmt [Hnull [Henum [Hpat [Harr [Hobj [Hcomp Hbf]]]]]]]]] K Hd.
   pose proof (type_agree p (s_types s) d Hd) as Ht.
   pose proof (enum_agree p s d Hd Henum) as He.
-  destruct (props_agree p s d K Hcomp Hd) as [x2 [Hx2 Hc]].
+  destruct (props_agree p s d K Hcomp Hd) as [x2 [bc [Hx2 [Hc Hvx2]]]].
   unfold sv_body, d4_body. rewrite Hfmt, Hnull in *. rewrite Hc.
   set (r0 := if opt_skip_schemata opt then new_res else mkRes [] 0 [s_default s] [] []).
   assert (Hr0 : r_valid r0 = true) by apply r_valid_r0.
@@ -735,8 +851,8 @@ Proof.
   destruct d as [|b|x|d32 f| | |id l| |id m]; try (exfalso; exact Hd).
   - (* null: only the type and the enumeration are looked at; the schema has no composition keyword *)
     cbn [jd] in Hd. destruct (Hns Hd) as [Hao [Hany Hnot]]. destruct Hcomp as [Hone Hdeps].
-    assert (Hx2v : r_valid x2 = true).
-    { unfold props_validate in Hx2. rewrite Hao, Hany, Hnot, Hone, Hdeps in Hx2. cbn in Hx2. inversion Hx2. reflexivity. }
+    assert (Hx2v : bc = true).
+    { unfold composition_ok in Hc. rewrite Hao, Hany, Hnot, Hone in Hc. cbn in Hc. inversion Hc. reflexivity. }
     assert (Htn : r_valid (type_validate N p (s_types s) false 0 VNil) = type_ok N s VNil).
     { unfold type_ok. rewrite <- Ht. unfold type_applies. cbn [Z.eqb negb orb]. destruct (s_types s); reflexivity. }
     cbv beta iota zeta. fold r0. eexists. split; [reflexivity|]. cbn [numeric_ok string_ok array_ok object_ok].
@@ -747,7 +863,7 @@ Proof.
   - (* boolean *)
     cbv beta iota zeta. fold r0. fold r1. rewrite Hx2. cbn [bind is_string_kind is_number_kind is_slice_kind is_map_kind format_applies andb].
     eexists. split; [reflexivity|]. cbn [numeric_ok string_ok array_ok object_ok].
-    repeat (rewrite r_valid_inc || rewrite r_valid_merge). rewrite Hr1, He.
+    repeat (rewrite r_valid_inc || rewrite r_valid_merge). rewrite Hr1, He, Hvx2. cbn [deps_verdict].
     match goal with |- all_opt [Some ?a; Some ?b; Some true; Some true; Some true; Some true; Some ?e] = _ =>
       change (all_opt [Some a; Some b; Some true; Some true; Some true; Some true; Some e]) with (Some (a && (b && (true && (true && (true && (true && (e && true))))))))
     end. f_equal. btauto.
@@ -758,7 +874,7 @@ Proof.
     { unfold format_validate. destruct (o_fmt_check OR (s_format s) x); eexists; reflexivity. }
     destruct Hfv as [xf Hxf]. rewrite Hxf in *.
     destruct (format_applies OR s (VStr x)) eqn:Ea; cbn [bind]; (eexists; split; [reflexivity|]);
-      cbn [numeric_ok array_ok object_ok]; repeat (rewrite r_valid_inc || rewrite r_valid_merge); rewrite Hr1, He, <- Hs;
+      cbn [numeric_ok array_ok object_ok]; repeat (rewrite r_valid_inc || rewrite r_valid_merge); rewrite Hr1, He, Hvx2, <- Hs; cbn [deps_verdict];
       match goal with |- all_opt [Some ?a; Some ?b; Some true; Some ?c; Some true; Some true; Some ?e] = _ =>
         change (all_opt [Some a; Some b; Some true; Some c; Some true; Some true; Some e]) with (Some (a && (b && (true && (c && (true && (true && (e && true))))))))
       end; f_equal; destruct (string_validate OR p s (VStr x)); btauto.
@@ -766,7 +882,7 @@ Proof.
     cbn [jd] in Hd. pose proof (number_agree p s d32 f Hd Hbf) as Hn.
     cbv beta iota zeta. fold r0. fold r1. rewrite Hx2. cbn [bind is_string_kind is_number_kind is_slice_kind is_map_kind format_applies andb].
     eexists. split; [reflexivity|]. cbn [string_ok array_ok object_ok].
-    repeat (rewrite r_valid_inc || rewrite r_valid_merge). rewrite Hr1, He, Hn.
+    repeat (rewrite r_valid_inc || rewrite r_valid_merge). rewrite Hr1, He, Hvx2, Hn. cbn [deps_verdict].
     match goal with |- all_opt [Some ?a; Some ?b; Some ?c; Some true; Some true; Some true; Some ?e] = _ =>
       change (all_opt [Some a; Some b; Some c; Some true; Some true; Some true; Some e]) with (Some (a && (b && (c && (true && (true && (true && (e && true))))))))
     end. f_equal. btauto.
@@ -774,15 +890,15 @@ Proof.
     apply jd_arr in Hd. destruct (slice_agree p s id l K Harr Hd) as [xs [Hxs Ha]].
     cbv beta iota zeta. fold r0. fold r1. rewrite Hx2. cbn [bind is_string_kind is_number_kind is_slice_kind is_map_kind format_applies andb].
     rewrite Hxs. cbn [bind]. eexists. split; [reflexivity|]. rewrite Ha. cbn [numeric_ok string_ok object_ok].
-    repeat (rewrite r_valid_inc || rewrite r_valid_merge). rewrite Hr1, He.
+    repeat (rewrite r_valid_inc || rewrite r_valid_merge). rewrite Hr1, He, Hvx2. cbn [deps_verdict].
     match goal with |- all_opt [Some ?a; Some ?b; Some true; Some true; Some ?c; Some true; Some ?e] = _ =>
       change (all_opt [Some a; Some b; Some true; Some true; Some c; Some true; Some e]) with (Some (a && (b && (true && (true && (c && (true && (e && true))))))))
     end. f_equal. btauto.
   - (* object *)
-    destruct Hcomp as [_ Hdeps]. destruct (object_agree p s id m K Hobj Hdeps Hd) as [xo [Hxo Ho]].
+    destruct (object_agree p s id m K Hobj Hd) as [xo [Hxo Ho]].
     cbv beta iota zeta. fold r0. fold r1. rewrite Hx2. cbn [bind is_string_kind is_number_kind is_slice_kind is_map_kind format_applies andb].
     rewrite Hxo. cbn [bind]. eexists. split; [reflexivity|]. rewrite Ho. cbn [numeric_ok string_ok array_ok].
-    repeat (rewrite r_valid_inc || rewrite r_valid_merge). rewrite Hr1, He.
+    repeat (rewrite r_valid_inc || rewrite r_valid_merge). rewrite Hr1, He, Hvx2. cbn [deps_verdict].
     match goal with |- all_opt [Some ?a; Some ?b; Some true; Some true; Some true; Some ?c; Some ?e] = _ =>
       change (all_opt [Some a; Some b; Some true; Some true; Some true; Some c; Some e]) with (Some (a && (b && (true && (true && (true && (c && (e && true))))))))
     end. f_equal. btauto.
